@@ -63,18 +63,17 @@ def main():
     ap.add_argument("--id", default=None)
     ap.add_argument("--repo", default="/repo")
     ap.add_argument("-v", action="store_true")
+    ap.add_argument("-j", "--jobs", type=int, default=6)
     a = ap.parse_args()
     ms = json.load(open(os.path.join(HERE, "mutants.json")))
     bad = 0
-    for m in ms:
-        if a.prop and m["property"] != a.prop:
-            continue
-        if a.id and m["id"] != a.id:
-            continue
-        st, info = run_one(m, a.repo, a.v)
-        print("%-10s %-28s %s" % (st, m["id"], info if st != "caught" else info[:140]))
-        if st in ("missed", "failclosed", "broken-mutant", "false-alarm"):
-            bad += 1
+    ms = [m for m in ms if not (a.prop and m["property"] != a.prop) and not (a.id and m["id"] != a.id)]
+    from concurrent.futures import ThreadPoolExecutor
+    with ThreadPoolExecutor(max_workers=a.jobs) as ex:
+        for m, (st, info) in zip(ms, ex.map(lambda m_: run_one(m_, a.repo, a.v), ms)):
+            print("%-10s %-28s %s" % (st, m["id"], info if st != "caught" else info[:140]), flush=True)
+            if st in ("missed", "failclosed", "broken-mutant", "false-alarm"):
+                bad += 1
     return 1 if bad else 0
 
 
